@@ -6,6 +6,7 @@ use crate::util::*;
 use serde_json::{json, Value};
 
 pub mod dewey;
+pub mod names;
 pub mod pattern;
 
 #[derive(Default)]
@@ -52,6 +53,9 @@ pub fn run(st: &mut State, op: &str, input: &Value) -> Option<Out> {
         "patmatch" => Some(pattern::patmatch(input)),
         "best" => Some(pattern::best(input)),
         "reduce" => Some(pattern::reduce(input)),
+        "pkgname" => Some(names::pkgname(input)),
+        "pkgpath" => Some(names::pkgpath(input)),
+        "depend" => Some(names::depend(input)),
         _ => Some(Out::new(json!({"unknown_op": op}), 0, 0)),
     }
 }
